@@ -1552,7 +1552,11 @@ func withBulk(prop string, share float64) {
 			bulkShare = rng.Range(40, 400)
 		}
 		defer func() { bulkShare = 0 }()
-		return gen(c, rng, tier)
+		g := gen(c, rng, tier)
+		if bulkShare > 0 && c.Cfg.IO == 1 && c.Cfg.FileSize < 2048 {
+			c.Cfg.FileSize = 2048 // hundreds of one-record mapped files make a run take minutes
+		}
+		return g
 	}
 }
 
